@@ -346,6 +346,82 @@ def run(ctx: Ctx) -> Outcome:
                     inst = hasattr(a, "_fields")
             events.append({"ev": "instantiable", "isclass": bool(ok_cls), "instantiable": bool(inst), "rightkind": bool(ok_cls and issubclass(a, r))})
             meta.append({"p": "origin-instantiable", "obj": n, "exc": exc or ""})
+    # name / qualname against the runtime's own attributes; ishashable / isproperty / isdescriptor over an instance pool
+    import functools
+    for n in names:
+        o, grp = objs[n]
+        rn = getattr(o, "__name__", None)
+        if not isinstance(rn, str) or isinstance(o, typing.ForwardRef) or type(o) is typing.TypeVar:
+            continue
+        for fnname, expect in (("name", rn),) + ((("qualname", o.__qualname__),) if inspect.isclass(o) and o.__module__ != "typing" else ()):
+            fn = getattr(inspection, fnname)
+            clear_typelib_caches()
+            a, exc = ask(fn, o)
+            b, _ = ask(fn, o)
+            events.append({"ev": "accessor", "expect": show(expect), "got": "raised" if a == "raised" else show(a), "again": "raised" if b == "raised" else show(b)})
+            meta.append({"p": fnname, "obj": n, "exc": exc or ""})
+
+    class _K:
+        __slots__ = ("a",)
+        @property
+        def p(self): return 1
+        @functools.cached_property
+        def cp(self): return 2
+        def m(self): pass
+        @classmethod
+        def c(cls): pass
+        @staticmethod
+        def s(): pass
+    pool = {"str": "", "frozenset": frozenset(), "list": [], "dict": {}, "tuple_with_list": (1, [2]), "int": 1, "None": None, "set": set(),
+            "bytearray": bytearray(), "slice": slice(1), "function": _K.m, "instance": _K(), "property": _K.__dict__["p"],
+            "cached_property": _K.__dict__["cp"], "plain_function": _K.__dict__["m"], "classmethod": _K.__dict__["c"],
+            "staticmethod": _K.__dict__["s"], "slot_descriptor": _K.__dict__["a"], "class": _K, "date": datetime.date(2020, 1, 1)}
+    for n, x in pool.items():
+        for fnname, expect in (("ishashable", isinstance(x, cabc.Hashable)),
+                               ("isproperty", isinstance(x, (property, functools.cached_property))),
+                               ("isdescriptor", any(m in dir(x) for m in ("__get__", "__set__", "__delete__", "__set_name__")))):
+            fn = getattr(inspection, fnname)
+            a, exc = ask(fn, x)
+            b, _ = ask(fn, x)
+            events.append({"ev": "accessor", "expect": show(bool(expect)), "got": "raised" if a == "raised" else show(bool(a)),
+                           "again": "raised" if b == "raised" else show(bool(b))})
+            meta.append({"p": fnname, "obj": "instance:" + n, "exc": exc or ""})
+    # signature helpers against inspect / typing
+    def _f1(a, /, b: int, *c: str, d: float = 1.0, **e): pass
+    def _f2(x: "int" = 3) -> str: return ""
+    sigpool = {"function:all_kinds": _f1, "function:string_annotation": _f2}
+    for n in ("DC", "FDC", "SDC", "NT", "CNT", "Plain", "Empty", "SubDC", "GDC", "Box"):
+        sigpool["class:" + n] = objs[n][0]
+    for n, o in sigpool.items():
+        try:
+            expect = str(inspect.signature(o))
+        except (ValueError, TypeError):
+            continue
+        a, exc = ask(lambda x: str(inspection.signature(x)), o)
+        b, _ = ask(lambda x: str(inspection.cached_signature(x)), o)
+        events.append({"ev": "accessor", "expect": expect, "got": a, "again": b})
+        meta.append({"p": "signature", "obj": n, "exc": exc or ""})
+    for n in ("TD", "TDN", "TDReq", "TDInh", "Page"):
+        o = objs[n][0]
+        expect = show((sorted(typing.get_type_hints(o)), sorted(o.__required_keys__)))
+
+        def td(x):
+            ps = inspection.signature(x).parameters
+            return show((sorted(ps), sorted(k for k, p in ps.items() if p.default is inspect.Parameter.empty)))
+        a, exc = ask(td, o)
+        b, _ = ask(td, o)
+        events.append({"ev": "accessor", "expect": expect, "got": a, "again": b})
+        meta.append({"p": "signature", "obj": "typeddict:" + n, "exc": exc or ""})
+    for n in ("DC", "FDC", "SDC", "NT", "TD", "TDN", "TDReq", "TDInh", "Plain", "SubDC", "Level", "Empty"):
+        o = objs[n][0]
+        expect = show(sorted((k, show(v)) for k, v in typing.get_type_hints(o).items()))
+        if not typing.get_type_hints(o):
+            continue            # without hints the helpers fall back to the signature's parameters, by their own documentation
+        for fnname in ("get_type_hints", "cached_type_hints"):
+            a, exc = ask(lambda x: show(sorted((k, show(v)) for k, v in getattr(inspection, fnname)(x).items())), o)
+            b, _ = ask(lambda x: show(sorted((k, show(v)) for k, v in getattr(inspection, fnname)(x).items())), o)
+            events.append({"ev": "accessor", "expect": expect, "got": a, "again": b})
+            meta.append({"p": fnname, "obj": n, "exc": exc or ""})
     # implementation-shaped layer: which routine class the two factories choose for each catalogue object
     import typelib
     ndisp = 0
